@@ -145,6 +145,9 @@ SameTx(a, d) == /\ d.ver = a.ver /\ d.tn = a.tn /\ d.fnb = U32BE(a.fn)
 SameRx(a, d) ==
   /\ d.ver = a.ver /\ d.tn = a.tn /\ d.fnb = U32BE(a.fn)
   /\ d.rssi = a.rssi /\ d.toa = a.toa /\ d.burst = a.burst
+  \* version 0 has no modulation on the wire: it is the one the burst length implies (what a version-1
+  \* recipient of the forwarded message is told)
+  /\ (a.ver = 0 /\ a.burst.has) => d.mod = (IF Len(a.burst.bits) = 3 * GB THEN "8PSK" ELSE "GMSK")
   /\ a.ver >= 1 =>
        /\ d.nope = a.nope /\ d.ci = a.ci
        /\ ~a.nope => (d.mod = a.mod /\ d.tscset = a.tscset /\ d.tsc = a.tsc)
